@@ -9,6 +9,8 @@ Driver commands of the codec work-package (C02–C05):
 -/
 import EngineModel.Driver.Cmds.Core
 import EngineModel.Impl.Zlib
+import EngineModel.Impl.ZlibCompress
+import EngineModel.Impl.Blob
 import EngineModel.Format.V1
 
 open EngineModel EngineModel.Text
@@ -17,12 +19,21 @@ namespace Drv
 
 def isRawKind (k : String) : Bool := k == "v2.loops" || k == "v1.loops"
 
+/-- `decz`: the blob-level Model (`Impl/Blob.lean`): `fromBlob = decode ∘ uncompress`, loops raw. -/
 def deczCmd (kind : String) (blob : Bytes) : String :=
-  if isRawKind kind then decCmd kind blob else
-  match Impl.Zlib.unz blob with
-  | .ok payload => decCmd kind payload
-  | .throw e => "throw " ++ e.toString
-  | .ub u => "ub " ++ u.toString
+  match kind with
+  | "v2.beat" => renderRes sBeat (Impl.Blob.fromBlobBeat2 blob)
+  | "v2.cues" => renderRes sCues (Impl.Blob.fromBlobCues2 blob)
+  | "v2.loops" => renderRes sLoops (Impl.Blob.fromBlobLoops2 blob)
+  | "v2.ovw" => renderRes sOvw (Impl.Blob.fromBlobOvw2 blob)
+  | "v2.track" => renderRes sTrack (Impl.Blob.fromBlobTrack2 blob)
+  | "v1.beat" => renderRes sBeat1 (Impl.Blob.fromBlobBeat1 blob)
+  | "v1.cues" => renderRes sCues1 (Impl.Blob.fromBlobCues1 blob)
+  | "v1.loops" => renderRes sLoops1 (Impl.Blob.fromBlobLoops1 blob)
+  | "v1.ovw" => renderRes sWave (Impl.Blob.fromBlobOvw1 blob)
+  | "v1.hires" => renderRes sWave (Impl.Blob.fromBlobHires1 blob)
+  | "v1.track" => renderRes sTrack1 (Impl.Blob.fromBlobTrack1 blob)
+  | _ => "bad-op kind"
 
 def reencCmd (kind : String) (payload : Bytes) : String :=
   match kind with
@@ -55,6 +66,59 @@ def sdecCmd (kind : String) (payload : Bytes) : String :=
   | "v1.track" => renderSpec sTrack1 (V1.decodeTrack payload)
   | _ => specDecCmd kind payload
 
+/-! `zreplay <payload length> <flush:avail_in:consumed:produced:ret>…` — the Model of the
+`zlib_compress` loops run against the *recorded* answers of the real `deflate()` (an oracle that
+replays the trace; output bytes are irrelevant for the control flow and are zeros).  Prints the
+calls the Model makes; the tie requires them to be exactly the calls the C++ made. -/
+
+def retOfInt (i : Int) : Impl.Zlib.Ret :=
+  if i = 0 then .ok else if i = 1 then .streamEnd else if i = 2 then .needDict
+  else if i = -5 then .bufError else if i = -3 then .dataError else if i = -4 then .memError else .streamError
+
+def intOfRet : Impl.Zlib.Ret → Int
+  | .ok => 0 | .streamEnd => 1 | .needDict => 2 | .bufError => -5 | .dataError => -3 | .memError => -4
+  | .streamError => -2
+
+structure TraceCall where
+  flush : Nat
+  availIn : Nat
+  consumed : Nat
+  produced : Nat
+  ret : Int
+
+def parseTraceCall (s : String) : Option TraceCall :=
+  match s.splitOn ":" with
+  | [f, a, c, p, r] =>
+    match f.toNat?, a.toNat?, c.toNat?, p.toNat?, r.toInt? with
+    | some f, some a, some c, some p, some r => some ⟨f, a, c, p, r⟩
+    | _, _, _, _, _ => none
+  | _ => none
+
+/-- replays the recorded answers; a call beyond the trace answers `streamError` with nothing -/
+def traceOracle : Impl.Zlib.DOracle (List TraceCall) where
+  step s _win _n _flush :=
+    match s with
+    | [] => (.streamError, 0, [], [])
+    | c :: rest => (retOfInt c.ret, c.consumed, List.replicate c.produced 0, rest)
+
+def zreplayCmd (args : List String) : String :=
+  match args with
+  | n :: calls =>
+    match n.toNat?, calls.mapM parseTraceCall with
+    | some n, some tr =>
+      let fuel := 2 * tr.length + n / Impl.Zlib.chunk + 16
+      match Impl.Zlib.compress traceOracle tr fuel (List.replicate n 0) with
+      | .ok (blob, log) =>
+        let show1 (c : Impl.Zlib.DCall) : String :=
+          (if c.flush = .finish then "4" else "0") ++ ":" ++ toString c.availIn ++ ":" ++ toString c.consumed ++ ":" ++
+            toString c.out.length ++ ":" ++ toString (intOfRet c.ret)
+        "ok len=" ++ toString blob.length ++ " calls=" ++ toString log.length ++
+          String.join (log.map fun c => " " ++ show1 c)
+      | .throw e => "throw " ++ e.toString
+      | .ub u => "ub " ++ u.toString
+    | _, _ => "bad-op trace"
+  | _ => "bad-op args"
+
 def withHex (h : String) (f : Bytes → String) : String :=
   match parseHexBytes h with
   | some b => f b
@@ -71,6 +135,7 @@ def codecsTable (cmd : String) (args : List String) : Option String :=
       match Zlib.inflate b with
       | some (o, r) => "ok " ++ hexBytes o ++ " " ++ hexBytes r
       | none => "reject")
+  | "zreplay", args => some (zreplayCmd args)
   | "stz", [h] => some (withHex h fun b => "ok " ++ hexBytes (Zlib.frame b))
   | "unframe", [h] => some (withHex h fun b =>
       match Zlib.unframe b with
